@@ -9,18 +9,18 @@ Local Arguments Nat.eqb : simpl never.
 
 (* Every primitive inhabits the semantic interpretation of its declared static type. *)
 Definition sig_sound (Sg : sigma) : Prop :=
-  forall o T d, Sg o = Some T -> V T d (VPrim o []).
+  forall o T d dr, Sg o = Some T -> V T d dr (VPrim o []).
 
-Definition env_ok (G : ctx) (d : list cand) (rho : env) : Prop :=
-  forall x T, assoc x G = Some T -> exists t, assoc x rho = Some t /\ TT (V T d) t.
+Definition env_ok (G : ctx) (d : list cand) (dr : list rcand) (rho : env) : Prop :=
+  forall x T, assoc x G = Some T -> exists t, assoc x rho = Some t /\ TT (V T d dr) t.
 
-Lemma env_ok_nil : forall d, env_ok [] d [].
-Proof. intros d x T H. discriminate. Qed.
+Lemma env_ok_nil : forall d dr, env_ok [] d dr [].
+Proof. intros d dr x T H. discriminate. Qed.
 
-Lemma env_ok_cons : forall G d rho x A t,
-  env_ok G d rho -> TT (V A d) t -> env_ok ((x, A) :: G) d ((x, t) :: rho).
+Lemma env_ok_cons : forall G d dr rho x A t,
+  env_ok G d dr rho -> TT (V A d dr) t -> env_ok ((x, A) :: G) d dr ((x, t) :: rho).
 Proof.
-  intros G d rho x A t He Ht y T Hy. simpl in *. destruct (String.eqb y x).
+  intros G d dr rho x A t He Ht y T Hy. simpl in *. destruct (String.eqb y x).
   - inversion Hy; subst. exists t. split; [reflexivity|assumption].
   - apply He. assumption.
 Qed.
@@ -34,20 +34,36 @@ Proof.
   - apply IH. assumption.
 Qed.
 
-Lemma env_ok_shift : forall G d rho R, env_ok G d rho -> env_ok (shift_ctx G) (R :: d) rho.
+Lemma env_ok_shift : forall G d dr rho R, env_ok G d dr rho -> env_ok (shift_ctx G) (R :: d) dr rho.
 Proof.
-  intros G d rho R He x T' Hx. apply assoc_shift_ctx in Hx. destruct Hx as [T [Hx ->]].
+  intros G d dr rho R He x T' Hx. apply assoc_shift_ctx in Hx. destruct Hx as [T [Hx ->]].
   destruct (He x T Hx) as [t [Ha Ht]]. exists t. split; [assumption|].
   eapply TT_ext; [|eassumption]. intros v. apply V_shift0.
 Qed.
 
+Lemma assoc_shiftR_ctx : forall G x T',
+  assoc x (shiftR_ctx G) = Some T' -> exists T, assoc x G = Some T /\ T' = shiftR 0 T.
+Proof.
+  induction G as [|[y U] G IH]; simpl; intros x T' H; [discriminate|].
+  destruct (String.eqb x y).
+  - inversion H; subst. exists U. split; reflexivity.
+  - apply IH. assumption.
+Qed.
+
+Lemma env_ok_shiftR : forall G d dr rho R, env_ok G d dr rho -> env_ok (shiftR_ctx G) d (R :: dr) rho.
+Proof.
+  intros G d dr rho R He x T' Hx. apply assoc_shiftR_ctx in Hx. destruct Hx as [T [Hx ->]].
+  destruct (He x T Hx) as [t [Ha Ht]]. exists t. split; [assumption|].
+  eapply TT_ext; [|eassumption]. intros v. apply V_shiftR0.
+Qed.
+
 (* ------------------------------------------------------------------------------ contracts *)
 
-Lemma wrap_TT : forall T d,
-  (forall v, pure_whnf v -> ok_out (V T d) (cast_whnf MTyped T v)) ->
-  forall t, pure_thunk t -> TT (V T d) (wrap MTyped T t).
+Lemma wrap_TT : forall T d dr,
+  (forall v, pure_whnf v -> ok_out (V T d dr) (cast_whnf MTyped T v)) ->
+  forall t, pure_thunk t -> TT (V T d dr) (wrap MTyped T t).
 Proof.
-  intros T d HT t Ht n. unfold wrap. simpl.
+  intros T d dr HT t Ht n. unfold wrap. simpl.
   destruct n as [|n]; [exact I|]. simpl.
   destruct n as [|n]; [exact I|]. simpl.
   destruct t as [m' e' rho'].
@@ -55,12 +71,32 @@ Proof.
   destruct (eval n m' rho' e') as [v|e|]; simpl in *; auto.
 Qed.
 
+Lemma wrap_fields_names : forall m r fs fs', wrap_fields m r fs = Some fs' -> map fst fs' = rows_fields r.
+Proof.
+  induction r as [|f T r IH|n]; simpl; intros fs fs' H.
+  - inversion H; subst. reflexivity.
+  - destruct (assoc f fs); [|discriminate]. destruct (wrap_fields m r fs) as [rest|] eqn:Hr; [|discriminate].
+    inversion H; subst. simpl. f_equal. eapply IH; eassumption.
+  - discriminate.
+Qed.
+
+Lemma first_order_rows_nodup : forall r, first_order_rows r = true -> NoDup (rows_fields r).
+Proof.
+  induction r as [|f T r IH|n]; simpl; intros H; [constructor| |discriminate].
+  apply andb_true_iff in H. destruct H as [H H3]. apply andb_true_iff in H. destruct H as [H1 H2].
+  constructor; [|apply IH; assumption].
+  intros Hin. apply negb_true_iff in H2.
+  assert (existsb (String.eqb f) (rows_fields r) = true) as Hx
+    by (apply existsb_exists; exists f; split; [assumption|apply String.eqb_refl]).
+  congruence.
+Qed.
+
 Lemma cast_sound_mut :
-  (forall T, first_order T = true -> forall d v, pure_whnf v -> ok_out (V T d) (cast_whnf MTyped T v)) /\
-  (forall r, first_order_rows r = true -> forall d fs, Forall (fun ft => pure_thunk (snd ft)) fs ->
-     forall fs', wrap_fields MTyped r fs = Some fs' -> Vrows r d fs') /\
-  (forall e, first_order_erows e = true -> forall t T', erows_lookup t e = Some (Some T') ->
-     forall d v, pure_whnf v -> ok_out (V T' d) (cast_whnf MTyped T' v)).
+  (forall T, first_order T = true -> forall d dr v, pure_whnf v -> ok_out (V T d dr) (cast_whnf MTyped T v)) /\
+  (forall r, first_order_rows r = true -> forall d dr fs, Forall (fun ft => pure_thunk (snd ft)) fs ->
+     forall fs', wrap_fields MTyped r fs = Some fs' -> Vrows r d dr fs') /\
+  (forall e, first_order_erows e = true -> forall t T', erows_lookup t true e = Some (Some T') ->
+     forall d dr v, pure_whnf v -> ok_out (V T' d dr) (cast_whnf MTyped T' v)).
 Proof.
   apply ty_rows_ind; simpl; intros; try discriminate.
   - assumption.
@@ -77,7 +113,9 @@ Proof.
     destruct v; simpl; auto. inversion H1; subst.
     destruct (forallb _ fs); simpl; auto.
     destruct (wrap_fields MTyped r fs) as [fs'|] eqn:Hw; simpl; auto.
-    exists fs'. split; [reflexivity|]. eapply H; eauto.
+    exists fs'. split; [reflexivity|]. split.
+    + rewrite (wrap_fields_names _ _ _ _ Hw). apply first_order_rows_nodup. assumption.
+    + eapply H; eauto.
   - (* TDict *)
     destruct v; simpl; auto. inversion H1; subst.
     eexists. split; [reflexivity|].
@@ -86,25 +124,30 @@ Proof.
     rewrite Forall_forall in H3. apply (H3 ft0 Hin).
   - (* TEnum *)
     destruct v; simpl; auto.
-    + destruct (erows_lookup t e) as [[T'|]|] eqn:Hl; simpl; auto. apply Verows_tag. assumption.
+    + destruct (erows_lookup t false e) as [[T'|]|] eqn:Hl; simpl; auto. apply Verows_tag. assumption.
     + inversion H1; subst.
-      destruct (erows_lookup t e) as [[T'|]|] eqn:Hl; simpl; auto.
+      destruct (erows_lookup t true e) as [[T'|]|] eqn:Hl; simpl; auto.
       eapply Verows_variant; [eassumption|].
       apply wrap_TT; [|assumption]. intros v' Hv'. eapply H; eassumption.
-  - (* RNil *) inversion H1; subst. exact I.
+  - (* RNil *) inversion H1; subst. reflexivity.
   - (* RCons *)
-    apply andb_true_iff in H1. destruct H1 as [Hft Hfr].
+    apply andb_true_iff in H1. destruct H1 as [H1 Hfr]. apply andb_true_iff in H1. destruct H1 as [Hft Hnd].
     destruct (assoc f fs) as [t0|] eqn:Ha; [|discriminate].
     destruct (wrap_fields MTyped r fs) as [rest|] eqn:Hr; [|discriminate].
-    inversion H3; subst. simpl. split; [reflexivity|]. split.
-    + apply wrap_TT; [intros; apply H; assumption|].
+    inversion H3; subst. simpl. rewrite String.eqb_refl. split.
+    + exists (wrap MTyped t t0). split; [reflexivity|].
+      apply wrap_TT; [intros; apply H; assumption|].
       eapply (assoc_Forall pure_thunk); eassumption.
-    + eapply H0; eauto.
+    + simpl. rewrite remove_field_notin; [eapply H0; eauto|].
+      rewrite (wrap_fields_names _ _ _ _ Hr). intros Hin. apply negb_true_iff in Hnd.
+      assert (existsb (String.eqb f) (rows_fields r) = true) as Hx
+        by (apply existsb_exists; exists f; split; [assumption|apply String.eqb_refl]).
+      congruence.
   - (* EBare *)
-    destruct (String.eqb t0 t); [discriminate|]. eapply H; eassumption.
+    rewrite andb_false_r in H1. eapply H; eassumption.
   - (* EArg *)
     apply andb_true_iff in H1. destruct H1 as [Hft Hfe].
-    destruct (String.eqb t0 t).
+    rewrite andb_true_r in H2. destruct (String.eqb t0 t).
     + inversion H2; subst. apply H; assumption.
     + eapply H0; eassumption.
 Qed.
@@ -118,31 +161,38 @@ Lemma TT_mono : forall (P Q : cand) t, (forall v, P v -> Q v) -> TT P t -> TT Q 
 Proof. intros P Q t H Ht n. eapply ok_out_mono; [eassumption|apply Ht]. Qed.
 
 Lemma sub_sound_mut :
-  (forall A B, sub A B -> forall d v, V A d v -> V B d v) /\
-  (forall r U, rows_sub_all r U -> forall d fs, Vrows r d fs ->
-     Forall (fun ft => TT (V U d) (snd ft)) fs) /\
-  (forall r s, rows_sub r s -> forall d fs, Vrows r d fs -> Vrows s d fs).
+  (forall A B, sub A B -> forall d dr v, V A d dr v -> V B d dr v) /\
+  (forall r U, rows_sub_all r U -> forall d dr fs, NoDup (map fst fs) -> Vrows r d dr fs ->
+     Forall (fun ft => TT (V U d dr) (snd ft)) fs) /\
+  (forall r s, rows_sub r s -> forall d dr fs, Vrows r d dr fs -> Vrows s d dr fs).
 Proof.
   apply sub_ind3; intros.
   - assumption.
-  - simpl in *. destruct H1 as [fs [-> Hr]]. exists fs. split; [reflexivity|]. apply H0. assumption.
+  - simpl in *. destruct H1 as [fs [-> [Hnd Hr]]]. exists fs. split; [reflexivity|]. eapply H0; eassumption.
   - simpl in *. destruct H1 as [ts [-> HF]]. exists ts. split; [reflexivity|].
     rewrite Forall_forall in *. intros t Hin. specialize (HF t Hin).
     eapply TT_mono; [|exact HF]. intros v'. apply H0.
   - simpl in *. destruct H1 as [fs [-> HF]]. exists fs. split; [reflexivity|].
     rewrite Forall_forall in *. intros t Hin. specialize (HF t Hin).
     eapply TT_mono; [|exact HF]. intros v'. apply H0.
-  - simpl in *. destruct H1 as [fs [-> Hr]]. exists fs. split; [reflexivity|]. apply H0. assumption.
-  - destruct fs as [|[? ?] ?]; simpl in *; [constructor|contradiction].
-  - destruct fs as [|[g t] fs']; simpl in *; [contradiction|]. destruct H3 as [<- [Ht Hr]].
-    constructor.
-    + simpl. eapply TT_mono; [|eassumption]. intros v'. apply H0.
+  - simpl in *. destruct H1 as [fs [-> [Hnd Hr]]]. exists fs. split; [reflexivity|]. split; [assumption|].
+    apply H0. assumption.
+  - (* SA_nil *) simpl in H0. subst. constructor.
+  - (* SA_cons *)
+    simpl in H4. destruct H4 as [[t [Ha Ht]] Hr].
+    pose proof (H2 d dr (remove_field f fs) (NoDup_remove_field f fs H3) Hr) as Hrest.
+    apply Forall_forall. intros ft Hin. destruct (String.eqb (fst ft) f) eqn:Hq.
+    + apply String.eqb_eq in Hq. destruct ft as [g u]. simpl in Hq. subst g.
+      pose proof (NoDup_assoc fs f u H3 Hin) as Hau. rewrite Ha in Hau. inversion Hau; subst.
+      simpl. eapply TT_mono; [|eassumption]. intros v'. apply H0.
+    + rewrite Forall_forall in Hrest. apply Hrest. apply remove_field_In. split; [assumption|].
+      intros Heq. rewrite Heq in Hq. rewrite String.eqb_refl in Hq. discriminate.
+  - (* SR_nil *) assumption.
+  - (* SR_cons *)
+    simpl in *. destruct H3 as [[t [Ha Ht]] Hr]. split.
+    + exists t. split; [assumption|]. eapply TT_mono; [|eassumption]. intros v'. apply H0.
     + apply H2. assumption.
-  - assumption.
-  - destruct fs as [|[g t] fs']; simpl in *; [contradiction|]. destruct H3 as [<- [Ht Hr]].
-    split; [reflexivity|]. split.
-    + eapply TT_mono; [|eassumption]. intros v'. apply H0.
-    + apply H2. assumption.
+  - (* SR_var *) assumption.
 Qed.
 
 (* ------------------------------------------------------------------- the fundamental lemma *)
@@ -157,17 +207,17 @@ Section Fundamental.
 
   Lemma fundamental :
     (forall G e T, has_type Sg G e T ->
-       forall d rho, env_ok G d rho -> forall n, ok_out (V T d) (eval n MTyped rho e)) /\
+       forall d dr rho, env_ok G d dr rho -> forall n, ok_out (V T d dr) (eval n MTyped rho e)) /\
     (forall G es T, has_types Sg G es T ->
-       forall d rho, env_ok G d rho -> Forall (TT (V T d)) (mk_thunks rho es)) /\
+       forall d dr rho, env_ok G d dr rho -> Forall (TT (V T d dr)) (mk_thunks rho es)) /\
     (forall G fs r, has_fields Sg G fs r ->
-       forall d rho, env_ok G d rho -> Vrows r d (mk_fields rho fs)) /\
+       forall d dr rho, env_ok G d dr rho -> NoDup (map fst fs) -> Vrows r d dr (mk_fields rho fs)) /\
     (forall G r bs T, has_branches Sg G r bs T ->
-       forall d rho, env_ok G d rho ->
+       forall d dr rho, env_ok G d dr rho ->
        (forall t x b, find_branch t false bs = Some (x, b) ->
-          forall n, ok_out (V T d) (eval n MTyped rho b)) /\
-       (forall t x b A th, find_branch t true bs = Some (x, b) -> erows_lookup t r = Some (Some A) ->
-          TT (V A d) th -> exists y, x = Some y /\ forall n, ok_out (V T d) (eval n MTyped ((y, th) :: rho) b))).
+          forall n, ok_out (V T d dr) (eval n MTyped rho b)) /\
+       (forall t x b A th, find_branch t true bs = Some (x, b) -> erows_lookup t true r = Some (Some A) ->
+          TT (V A d dr) th -> exists y, x = Some y /\ forall n, ok_out (V T d dr) (eval n MTyped ((y, th) :: rho) b))).
   Proof.
     apply typing_ind; intros.
     - (* Var *)
@@ -183,7 +233,7 @@ Section Fundamental.
       apply H0. apply env_ok_cons; assumption.
     - (* App *)
       destruct n as [|n]; [exact I|]. simpl.
-      pose proof (H0 d rho H3 n) as Hf.
+      pose proof (H0 d dr rho H3 n) as Hf.
       destruct (eval n MTyped rho f) as [v|e|]; simpl in *; auto.
       apply (Hf (Thunk MTyped a rho)).
       intros n0. simpl. apply H2. assumption.
@@ -193,7 +243,7 @@ Section Fundamental.
       intros n0. simpl. apply H0. assumption.
     - (* If *)
       destruct n as [|n]; [exact I|]. simpl.
-      pose proof (H0 d rho H5 n) as Hc.
+      pose proof (H0 d dr rho H5 n) as Hc.
       destruct (eval n MTyped rho c) as [v|e0|]; simpl in *; auto.
       destruct Hc as [b ->]. destruct b; [apply H2|apply H4]; assumption.
     - (* Arr *)
@@ -201,13 +251,15 @@ Section Fundamental.
       exists (mk_thunks rho es). split; [reflexivity|]. apply H0. assumption.
     - (* Rec *)
       destruct n as [|n]; [exact I|]. simpl.
-      exists (mk_fields rho fs). split; [reflexivity|]. apply H0. assumption.
+      exists (mk_fields rho fs). split; [reflexivity|]. split.
+      + unfold mk_fields. rewrite map_map. simpl. assumption.
+      + apply H1; assumption.
     - (* Proj *)
       destruct n as [|n]; [exact I|]. simpl.
-      pose proof (H0 d rho H2 n) as He.
+      pose proof (H0 d dr rho H2 n) as He.
       destruct (eval n MTyped rho e) as [v|e0|]; simpl in *; auto.
-      destruct He as [fs [-> Hr]].
-      destruct (Vrows_lookup _ _ _ _ _ Hr H1) as [t [Ha Ht]]. rewrite Ha.
+      destruct He as [fs [-> [Hnd Hr]]].
+      destruct (Vrows_lookup _ _ _ _ _ _ Hr H1) as [t [Ha Ht]]. rewrite Ha.
       destruct t as [m' e' rho']. apply (Ht n).
     - (* Tag *)
       destruct n as [|n]; [exact I|]. simpl. apply Verows_tag. assumption.
@@ -216,22 +268,22 @@ Section Fundamental.
       intros n0. simpl. apply H1. assumption.
     - (* Match *)
       destruct n as [|n]; [exact I|]. simpl.
-      pose proof (H0 d rho H4 n) as He.
+      pose proof (H0 d dr rho H4 n) as He.
       destruct (eval n MTyped rho e) as [v|e0|]; simpl in *; auto.
-      destruct (H2 d rho H4) as [Hb0 Hb1].
-      destruct (Verows_inv _ _ _ He) as [[t [-> Hl]]|[t [th [A [-> [Hl Ht]]]]]].
+      destruct (H2 d dr rho H4) as [Hb0 Hb1].
+      destruct (Verows_inv _ _ _ _ He) as [[t [-> Hl]]|[t [th [A [-> [Hl Ht]]]]]].
       + destruct (find_branch t false bs) as [[x b]|] eqn:Hf.
         * eapply Hb0; eassumption.
-        * exfalso. eapply (H3 t None); eassumption.
+        * exfalso. eapply (H3 t false None); eassumption.
       + destruct (find_branch t true bs) as [[x b]|] eqn:Hf.
         * destruct (Hb1 t x b A th Hf Hl Ht) as [y [-> Hy]]. apply Hy.
-        * exfalso. eapply (H3 t (Some A)); eassumption.
+        * exfalso. eapply (H3 t true (Some A)); eassumption.
     - (* MatchD *)
       destruct n as [|n]; [exact I|]. simpl.
-      pose proof (H0 d0 rho H5 n) as He.
+      pose proof (H0 d0 dr rho H5 n) as He.
       destruct (eval n MTyped rho e) as [v|e0|]; simpl in *; auto.
-      destruct (H2 d0 rho H5) as [Hb0 Hb1].
-      destruct (Verows_inv _ _ _ He) as [[t [-> Hl]]|[t [th [A [-> [Hl Ht]]]]]].
+      destruct (H2 d0 dr rho H5) as [Hb0 Hb1].
+      destruct (Verows_inv _ _ _ _ He) as [[t [-> Hl]]|[t [th [A [-> [Hl Ht]]]]]].
       + destruct (find_branch t false bs) as [[x b]|] eqn:Hf.
         * eapply Hb0; eassumption.
         * apply H4. assumption.
@@ -248,34 +300,45 @@ Section Fundamental.
       destruct (eval n MUntyped [] u); simpl in *; auto.
     - (* Cast *)
       destruct n as [|n]; [exact I|]. simpl.
-      pose proof (H0 d rho H2 n) as He.
+      pose proof (H0 d dr rho H2 n) as He.
       destruct (eval n MTyped rho e) as [v|e0|]; simpl in *; auto.
       apply (proj1 cast_sound_mut); assumption.
     - (* Gen *)
-      assert (Hall : forall R, ok_out (V T (R :: d)) (eval n MTyped rho e)).
+      assert (Hall : forall R, ok_out (V T (R :: d) dr) (eval n MTyped rho e)).
       { intros R. apply H0. apply env_ok_shift. assumption. }
       destruct (eval n MTyped rho e) as [v|e0|]; simpl in *; auto.
       apply (Hall (fun _ => True)).
     - (* Inst *)
-      pose proof (H0 d rho H1 n) as He.
+      pose proof (H0 d dr rho H1 n) as He.
       destruct (eval n MTyped rho e) as [v|e0|]; simpl in *; auto.
       apply V_subst0. apply He.
     - (* Sub *)
-      pose proof (H0 d rho H2 n) as He.
+      pose proof (H0 d dr rho H2 n) as He.
       eapply ok_out_mono; [|eassumption]. intros v. apply (proj1 sub_sound_mut _ _ H1).
+    - (* GenR *)
+      assert (Hall : forall R, ok_out (V T d (R :: dr)) (eval n MTyped rho e)).
+      { intros R. apply H0. apply env_ok_shiftR. assumption. }
+      destruct (eval n MTyped rho e) as [v|e0|]; simpl in *; auto.
+      apply (Hall (fun _ => True)).
+    - (* InstR *)
+      pose proof (H0 d dr rho H1 n) as He.
+      destruct (eval n MTyped rho e) as [v|e0|]; simpl in *; auto.
+      apply V_substR0. apply He.
     - (* types nil *) constructor.
     - (* types cons *)
       simpl. constructor.
       + intros n. simpl. apply H0. assumption.
       + apply H2. assumption.
-    - (* fields nil *) exact I.
+    - (* fields nil *) reflexivity.
     - (* fields cons *)
-      simpl. split; [reflexivity|]. split.
-      + intros n. simpl. apply H0. assumption.
-      + apply H2. assumption.
+      simpl in H4. inversion H4; subst. simpl. rewrite String.eqb_refl. split.
+      + eexists. split; [reflexivity|]. intros n. simpl. apply H0. assumption.
+      + simpl. rewrite remove_field_notin.
+        * apply H2; assumption.
+        * unfold mk_fields. rewrite map_map. simpl. assumption.
     - (* branches nil *) split; intros; discriminate.
     - (* branches bare *)
-      destruct (H2 d rho H3) as [Hb0 Hb1]. split.
+      destruct (H2 d dr rho H3) as [Hb0 Hb1]. split.
       + intros t0 x b0 Hf n. cbn [find_branch] in Hf.
         revert Hf. destruct (String.eqb t0 t && Bool.eqb false false) eqn:Hq; intros Hf.
         * inversion Hf; subst. apply H0. assumption.
@@ -285,7 +348,7 @@ Section Fundamental.
         * simpl in Hq. rewrite andb_false_r in Hq. discriminate.
         * eapply Hb1; eassumption.
     - (* branches arg *)
-      destruct (H3 d rho H4) as [Hb0 Hb1]. split.
+      destruct (H3 d dr rho H4) as [Hb0 Hb1]. split.
       + intros t0 x0 b0 Hf n. cbn [find_branch] in Hf.
         revert Hf. destruct (String.eqb t0 t && Bool.eqb false true) eqn:Hq; intros Hf.
         * simpl in Hq. rewrite andb_false_r in Hq. discriminate.
@@ -349,20 +412,39 @@ Proof.
     destruct (force_fields (force n) (eval_thunk n) fs); simpl in *; auto.
 Qed.
 
+(* forcing one field *)
+Definition elem_safe (n : nat) (t : thunk) : Prop :=
+  safe_outcome (bind (eval_thunk n t) (force n)).
+
+Lemma force_fields_safe : forall n fs,
+  (forall ft, In ft fs -> elem_safe n (snd ft)) ->
+  safe_outcome (force_fields (force n) (eval_thunk n) fs).
+Proof.
+  intros n fs. induction fs as [|[f t] fs IH]; intros H; simpl; [exact I|].
+  pose proof (H (f, t) (or_introl eq_refl)) as Ht. unfold elem_safe in Ht. simpl in Ht.
+  destruct (eval_thunk n t) as [v|e|]; simpl in *; auto.
+  destruct (force n v) as [dv|e|]; simpl in *; auto.
+  assert (Hr : safe_outcome (force_fields (force n) (eval_thunk n) fs)) by (apply IH; intros; apply H; right; assumption).
+  destruct (force_fields (force n) (eval_thunk n) fs); simpl in *; auto.
+Qed.
+
+Definition rcands_deep (dr : list rcand) : Prop :=
+  Forall (fun R : rcand => forall fs, R fs -> forall n ft, In ft fs -> elem_safe n (snd ft)) dr.
+
 Lemma force_safe_mut :
-  (forall T d, cands_deep d -> forall v, V T d v -> forall n, safe_outcome (force n v)) /\
-  (forall r d, cands_deep d -> forall fs, Vrows r d fs ->
-     forall n, safe_outcome (force_fields (force n) (eval_thunk n) fs)) /\
-  (forall e d, cands_deep d -> forall t T, erows_lookup t e = Some (Some T) ->
-     forall v, V T d v -> forall n, safe_outcome (force n v)).
+  (forall T d dr, cands_deep d -> rcands_deep dr -> forall v, V T d dr v -> forall n, safe_outcome (force n v)) /\
+  (forall r d dr, cands_deep d -> rcands_deep dr -> forall fs, NoDup (map fst fs) -> Vrows r d dr fs ->
+     forall n ft, In ft fs -> elem_safe n (snd ft)) /\
+  (forall e d dr, cands_deep d -> rcands_deep dr -> forall t T, erows_lookup t true e = Some (Some T) ->
+     forall v, V T d dr v -> forall n, safe_outcome (force n v)).
 Proof.
   apply ty_rows_ind; intros.
   - apply pure_deep. assumption.
-  - destruct H0 as [q ->]. destruct n; simpl; exact I.
-  - destruct H0 as [q ->]. destruct n; simpl; exact I.
-  - destruct H0 as [q ->]. destruct n; simpl; exact I.
+  - destruct H1 as [q ->]. destruct n; simpl; exact I.
+  - destruct H1 as [q ->]. destruct n; simpl; exact I.
+  - destruct H1 as [q ->]. destruct n; simpl; exact I.
   - (* TArr *)
-    destruct H1 as [ts [-> HF]]. destruct n as [|n]; [exact I|]. simpl.
+    destruct H2 as [ts [-> HF]]. destruct n as [|n]; [exact I|]. simpl.
     assert (Hl : safe_outcome (force_list (force n) (eval_thunk n) ts)).
     { eapply force_list_safe; [|eassumption]. intros v Hv. eapply H; eauto. }
     destruct (force_list (force n) (eval_thunk n) ts); simpl in *; auto.
@@ -370,55 +452,69 @@ Proof.
     destruct n as [|n]; [exact I|].
     assert (Hbad : (forall t0, apply_with (eval 0) MTyped v t0 = Err (ENotAFunc MTyped)) -> False).
     { intros Hw.
-      pose proof (H2 (Thunk MUntyped (Var "z") []) (fun k => match k with 0 => I | S _ => I end) 0) as Hx.
+      pose proof (H3 (Thunk MUntyped (Var "z") []) (fun k => match k with 0 => I | S _ => I end) 0) as Hx.
       unfold app_out in Hx. rewrite Hw in Hx. exact Hx. }
     destruct v; simpl; auto.
     + exfalso. apply Hbad. reflexivity.
     + exfalso. apply Hbad. reflexivity.
     + exfalso. apply Hbad. reflexivity.
   - (* TRec *)
-    destruct H1 as [fs [-> Hr]]. destruct n as [|n]; [exact I|]. simpl.
-    pose proof (H d H0 fs Hr n) as Hl.
+    destruct H2 as [fs [-> [Hnd Hr]]]. destruct n as [|n]; [exact I|]. simpl.
+    assert (Hl : safe_outcome (force_fields (force n) (eval_thunk n) fs)).
+    { apply force_fields_safe. intros ft Hin. eapply H; eassumption. }
     destruct (force_fields (force n) (eval_thunk n) fs); simpl in *; auto.
   - (* TDict *)
-    destruct H1 as [fs [-> HF]]. destruct n as [|n]; [exact I|]. simpl.
+    destruct H2 as [fs [-> HF]]. destruct n as [|n]; [exact I|]. simpl.
     assert (Hl : safe_outcome (force_fields (force n) (eval_thunk n) fs)).
-    { induction fs as [|[g t0] fs' IHf]; simpl; [exact I|].
-      inversion HF; subst. simpl in H3. specialize (H3 n).
-      destruct (eval_thunk n t0) as [v|e|]; simpl in *; auto.
-      pose proof (H d H0 v H3 n) as Hf. destruct (force n v); simpl in *; auto.
-      specialize (IHf H4). destruct (force_fields (force n) (eval_thunk n) fs'); simpl in *; auto. }
+    { apply force_fields_safe. intros ft Hin. rewrite Forall_forall in HF. specialize (HF ft Hin n).
+      unfold elem_safe. destruct (eval_thunk n (snd ft)) as [v|e|]; simpl in *; auto.
+      eapply H; eassumption. }
     destruct (force_fields (force n) (eval_thunk n) fs); simpl in *; auto.
   - (* TEnum *)
-    simpl in H1. destruct (Verows_inv _ _ _ H1) as [[t [-> Hl]]|[t [th [A [-> [Hl Ht]]]]]].
+    simpl in H2. destruct (Verows_inv _ _ _ _ H2) as [[t [-> Hl]]|[t [th [A [-> [Hl Ht]]]]]].
     + destruct n; simpl; exact I.
     + destruct n as [|n]; [exact I|]. simpl. specialize (Ht n).
       destruct (eval_thunk n th) as [v'|e'|]; simpl in *; auto.
-      pose proof (H d H0 t A Hl v' Ht n) as Hf. destruct (force n v'); simpl in *; auto.
+      pose proof (H d dr H0 H1 t A Hl v' Ht n) as Hf. destruct (force n v'); simpl in *; auto.
   - (* TVar *)
-    simpl in H0. unfold cands_deep in H.
+    simpl in H1. unfold cands_deep in H.
     destruct (nth_in_or_default n d (fun _ : whnf => False)) as [Hin|Hd].
-    + rewrite Forall_forall in H. apply (H _ Hin v H0).
-    + rewrite Hd in H0. contradiction.
+    + rewrite Forall_forall in H. apply (H _ Hin v H1).
+    + rewrite Hd in H1. contradiction.
   - (* TForall *)
-    simpl in H1. eapply (H ((fun _ => False) :: d)).
+    simpl in H2. eapply (H ((fun _ => False) :: d) dr).
     + constructor; [intros v0 []|assumption].
-    + apply H1.
+    + assumption.
+    + apply H2.
+  - (* TForallR *)
+    simpl in H2. eapply (H d ((fun _ => False) :: dr)).
+    + assumption.
+    + constructor; [intros fs0 []|assumption].
+    + apply H2.
   - (* RNil *)
-    destruct fs as [|[? ?] ?]; [|contradiction]. simpl. exact I.
+    simpl in H2. subst. contradiction.
   - (* RCons *)
-    destruct fs as [|[g t0] fs']; [contradiction|]. destruct H2 as [<- [Ht Hr]]. simpl.
-    specialize (Ht n).
-    destruct (eval_thunk n t0) as [v|e|]; simpl in *; auto.
-    pose proof (H d H1 v Ht n) as Hf. destruct (force n v); simpl in *; auto.
-    pose proof (H0 d H1 fs' Hr n) as Hl.
-    destruct (force_fields (force n) (eval_thunk n) fs'); simpl in *; auto.
+    simpl in H4. destruct H4 as [[t0 [Ha Ht]] Hr].
+    destruct (String.eqb (fst ft) f) eqn:Hq.
+    + apply String.eqb_eq in Hq. destruct ft as [g u]. simpl in Hq. subst g.
+      pose proof (NoDup_assoc fs f u H3 H5) as Hau. rewrite Ha in Hau. inversion Hau; subst.
+      unfold elem_safe. simpl. specialize (Ht n).
+      destruct (eval_thunk n u) as [v|e|]; simpl in *; auto.
+      eapply H; eassumption.
+    + eapply (H0 d dr H1 H2 (remove_field f fs)); [apply NoDup_remove_field; assumption|eassumption|].
+      apply remove_field_In. split; [assumption|].
+      intros Heq. rewrite Heq in Hq. rewrite String.eqb_refl in Hq. discriminate.
+  - (* RVar *)
+    simpl in H2. unfold rcands_deep in H0.
+    destruct (nth_in_or_default n dr (fun _ : list (string * thunk) => False)) as [Hin|Hd].
+    + rewrite Forall_forall in H0. eapply (H0 _ Hin fs H2); eassumption.
+    + rewrite Hd in H2. contradiction.
   - (* ENil *) discriminate.
   - (* EBare *)
-    simpl in H1. destruct (String.eqb t0 t); [discriminate|]. eapply H; eassumption.
+    simpl in H2. rewrite andb_false_r in H2. eapply H; eassumption.
   - (* EArg *)
-    simpl in H2. destruct (String.eqb t0 t).
-    + inversion H2; subst. eapply H; eassumption.
+    simpl in H3. rewrite andb_true_r in H3. destruct (String.eqb t0 t).
+    + inversion H3; subst. eapply H; eassumption.
     + eapply H0; eassumption.
 Qed.
 
@@ -428,17 +524,17 @@ Theorem type_safety_lemma : forall Sg, sig_sound Sg ->
   forall n e T, has_type Sg [] e T -> safe_outcome (run n e).
 Proof.
   intros Sg HSg n e T Hty. unfold run.
-  pose proof (proj1 (fundamental Sg HSg) [] e T Hty [] [] (env_ok_nil []) n) as He.
+  pose proof (proj1 (fundamental Sg HSg) [] e T Hty [] [] [] (env_ok_nil [] []) n) as He.
   destruct (eval n MTyped [] e) as [v|e0|]; simpl in *; auto.
-  apply (proj1 force_safe_mut T []); [constructor|assumption].
+  apply (proj1 force_safe_mut T [] []); [constructor|constructor|assumption].
 Qed.
 
 (* the value of a typed block inhabits the semantic interpretation of its annotation: the block can
    never be blamed for the contract derived from its own (first-order) annotation *)
 Theorem typed_result_in_type : forall Sg, sig_sound Sg ->
-  forall n e T v, has_type Sg [] e T -> eval n MTyped [] e = Ok v -> V T [] v.
+  forall n e T v, has_type Sg [] e T -> eval n MTyped [] e = Ok v -> V T [] [] v.
 Proof.
   intros Sg HSg n e T v Hty Hev.
-  pose proof (proj1 (fundamental Sg HSg) [] e T Hty [] [] (env_ok_nil []) n) as He.
+  pose proof (proj1 (fundamental Sg HSg) [] e T Hty [] [] [] (env_ok_nil [] []) n) as He.
   rewrite Hev in He. exact He.
 Qed.
